@@ -15,6 +15,7 @@ from ..worlds import store
 ID = "C10"
 LEVEL = "exploration"
 CHUNK = 60
+CHUNK_DEADLINE = 600       # (long flavours: crowds, soaks, wide events; shared machines)
 BUDGET = {"quick": {"runs": 4000, "wall": 120}, "thorough": {"runs": 200000, "wall": 1200}}
 RULE = ("histories of 4-20 operations (add, replaceable chains, kind-5 deletions, expiring events + GC "
         "passes, API deletes, restart) over events with duplicate tags, non-string / empty / NUL / "
